@@ -19,7 +19,7 @@
     coincide (numpy raises "Too many bins"), and an index that leaves [0, n] before the correction
     (numpy's fancy indexing would wrap around or raise; cannot happen for finite data inside the
     range with rounding-monotone arithmetic; the theorems state it as a hypothesis).
-    No proofs here (Hist_Proofs are part of Hdm_Proofs.v). *)
+    No proofs here (lemmas: Hdm_Proofs.v). *)
 From MV Require Import Base Num.
 
 Definition zlen {A} (l : list A) : Z := Z.of_nat (length l).
